@@ -20,6 +20,7 @@ use state::*;
 use utils::*;
 
 mod bfs;
+mod bind;
 mod canon;
 mod check;
 mod dfs;
